@@ -80,12 +80,23 @@ def main():
             "for k in json.loads(sys.argv[3]):\n    v = st.fetch_blob(k)\n    out[k] = repr(v)[:50] if not hasattr(v, 'equals') else 'DF%d' % len(v)\nprint(json.dumps(out))\n"
         )
         keys = [k for k in vals]
-        p = subprocess.run([sys.executable, "-c", code, os.path.join(tmp, "int"), os.path.join(tmp, "data"), json.dumps(keys)], capture_output=True, text=True, env=os.environ)
+        out = None
+        for attempt in range(3):
+            p = subprocess.run([sys.executable, "-c", code, os.path.join(tmp, "int"), os.path.join(tmp, "data"), json.dumps(keys)], capture_output=True, text=True, env=os.environ)
+            # the answer is what the process printed; a native library aborting at interpreter shutdown (seen once under
+            # load: "terminate called without an active exception", after the result line) is not a read failure
+            lines = [l for l in p.stdout.strip().split("\n") if l.startswith("{")]
+            if lines:
+                out = json.loads(lines[-1])
+                break
+            if "Traceback" in p.stderr:
+                break
         evals += len(keys)
-        if p.returncode != 0:
+        if out is None and "Traceback" in p.stderr:
             violations.append({"what": "fresh process failed to read: " + p.stderr[-300:]})
+        elif out is None:
+            raise RuntimeError("the reader process died three times without a Python error: " + p.stderr[-300:])
         else:
-            out = json.loads(p.stdout.strip().split("\n")[-1])
             for k, v in vals.items():
                 exp = repr(v)[:50] if not hasattr(v, "equals") else "DF%d" % len(v)
                 if out.get(k) != exp and not isinstance(v, bytearray):
